@@ -19,6 +19,7 @@ fn main() {
         let to: u64 = args[5].parse().unwrap();
         let f: vharness::monitor::CaseFn = match (args[2].as_str(), stream) {
             ("C15", 1) => vharness::checks_misc::c15_soup_case,
+            ("C15", 5) => vharness::checks_misc::c15_display_twin_case,
             ("C13", 1) | ("C13", 2) => vharness::checks_conc::c13_case,
             ("C14", 1) => vharness::checks_conc::c14_case,
             ("C14", 2) => vharness::checks_conc::c14_churn_case,
